@@ -51,6 +51,10 @@ pub enum Step {
     /// slow channel, the second one blocks the actor on it and its caller drops the request after 10 ms; then the slow
     /// subscriber reads. Both entries were applied, so every subscriber - the slow one included - sees both events
     CancelledInsert { a: u8, k: u8, c: u8 },
+    /// a crafted reconciliation message (values, have_local) arriving while a slow subscriber (channel of capacity 1, reading
+    /// one event every few milliseconds) is attached: the actor has to wait for it between the entries of the message.
+    /// Every subscriber - slow or not - sees exactly one event per applied entry, in order
+    SlowMessage(Vec<Small>, bool),
 }
 
 #[derive(Serialize, Deserialize, Clone, Debug)]
@@ -159,6 +163,7 @@ impl Prop for C12 {
             3 => (0u8..4, 0u8..3, 0u8..5, 0u8..4).prop_map(|(what, a, k, c)| Step::OtherDoc(what, a, k, c)),
             2 => any::<bool>().prop_map(Step::ImportCapability),
             1 => (0u8..3, 0u8..7, 1u8..4).prop_map(|(a, k, c)| Step::CancelledInsert { a, k, c }),
+            1 => (vec(small(), 2..=5), any::<bool>()).prop_map(|(v, h)| Step::SlowMessage(v, h)),
         ];
         let plain = (vec(step, 1..=max), prop::bool::weighted(0.3)).prop_map(|(steps, start_readonly)| Case { steps, start_readonly, live: None });
         let live = crate::props::c04::live_case().prop_map(|l| Case { steps: vec![], start_readonly: false, live: Some(l) });
@@ -529,6 +534,54 @@ fn run(ctx: &mut Ctx, c: &Case, o: &mut Outcome) -> R<()> {
                         break;
                     }
                     let _ = h.unsubscribe(ns, stx).await;
+                }
+                Step::SlowMessage(vals, have_local) => {
+                    let from = [0x55u8; 32];
+                    let lo = RecordIdentifier::new(ns, author(0).id(), b"");
+                    let mut values = vec![];
+                    for sm in vals {
+                        let (e, valid) = build(sm, NOW.max(clock))?;
+                        offered.push(e.clone());
+                        values.push((e.clone(), status_of(sm.status)));
+                        if valid && model.apply(&e).is_some() {
+                            let dl = policy_oracle(&policy, e.key());
+                            expected.push(Ev { local: false, entry: e, from, status: Some(status_of(sm.status)), download: dl });
+                        } else {
+                            rejected_offer = true;
+                        }
+                    }
+                    big_message = true;
+                    let msg = MMessage { parts: vec![MPart::RangeItem(MRangeItem { range: MRange { x: lo.clone(), y: lo }, values, have_local: *have_local })] }.to_real();
+                    let (stx, srx) = async_channel::bounded::<Event>(1);
+                    es(h.subscribe(ns, stx.clone()).await)?;
+                    let mut slow_seen: Vec<Ev> = vec![];
+                    let req = tokio::time::timeout(std::time::Duration::from_secs(20), h.sync_process_message(ns, msg, from, SyncOutcome::default()));
+                    tokio::pin!(req);
+                    let r = loop {
+                        tokio::select! {
+                            biased;
+                            r = &mut req => break r,
+                            _ = tokio::time::sleep(std::time::Duration::from_millis(3)) => {
+                                if let Ok(ev) = srx.try_recv() {
+                                    slow_seen.push(to_ev(&ev, ns)?);
+                                }
+                            }
+                        }
+                    };
+                    let Ok(r) = r else { return Err("harness-timeout: the store actor did not finish a message within 20 s although the slow subscriber kept reading".into()) };
+                    reply_err = r.is_err();
+                    while let Ok(ev) = srx.try_recv() {
+                        slow_seen.push(to_ev(&ev, ns)?);
+                    }
+                    let _ = h.unsubscribe(ns, stx).await;
+                    if expected.len() >= 2 {
+                        o.class("slow-subscriber-during-a-message-with>=2-applied-entries");
+                    }
+                    let after_now = act::dump(&h, ns).await?;
+                    if after_now == model.dump() && slow_seen != expected {
+                        o.fail("C12/slow-subscriber-during-message", format!("{what}: the slow subscriber saw {} expected {}", describe_evs(&slow_seen), describe_evs(&expected)));
+                        break;
+                    }
                 }
                 Step::ImportCapability(write) => {
                     let cap = if *write { iroh_docs::Capability::Write(nssec.clone()) } else { iroh_docs::Capability::Read(ns) };
